@@ -150,6 +150,12 @@ def run(chk):
                     if ad.input_modified:
                         bad = {'step': step, 'clause': f'the caller\'s {ad.input_modified} array is left as it was given whichever kernel ran'}
                         break
+                    if (step + len(h)) % 2 == 0:
+                        # results asked for between two batches (convergence traces do it): the next batch - whichever kernel takes it - still adds to the same sums
+                        try:
+                            ad.compute()
+                        except Exception:       # noqa - a statistic may be undefined at that point; only the accumulators are compared here
+                            pass
                     exact = ad.exact_regime_ok(e['acc'])
                     try:
                         proj = ad.projection() if exact else None
